@@ -4,6 +4,7 @@ import PestModel.Lemmas.ReaderNoPanic
 import PestModel.Lemmas.ReaderAgree
 import PestModel.Lemmas.OptTotal
 import PestModel.Thm.C07Pairs
+import PestModel.Lemmas.PipelineNoPanic
 /-!
 # C09 — the grammar front-end is total
 
@@ -19,6 +20,7 @@ panics) and kept apart from the located errors the code returns. The theorems:
 * `consume_rules_no_panic` — on pairs of that shape no panic site of `consume_rules` is reachable;
 * `frontend_no_panic` — the two together: for EVERY text the reader returns rules or a located error.
 * `unrollF_total` — the unroller's `unwrap` (empty unrolling) is unreachable for the counts the reader lets through.
+* `pipeline_no_panic` — the whole of `parse_and_optimize` (with `validate_pairs`) on every text;
 * `optimizer_no_panic` — behind the reader: on the rules it returns (any text), the seven optimizer passes and the conversion
   to `OptimizedRule` reach none of their panic sites (`OptTotal`: the unroller leaves nothing it should have unrolled, the
   passes around it keep that, `rule_to_optimized_rule`'s `unreachable!` cannot fire).
@@ -103,6 +105,15 @@ theorem optimizer_no_panic (extras : Bool) (text : PestModel.LineCol.Str) (rs : 
     (optimizeWith extras withList rs).isSome = true := by
   obtain ⟨_, forest, _, hr, _⟩ := (PestModel.C07Pairs.reader_exact extras text rs).1 h
   exact PestModel.OptTotal.optimizeWith_total extras withList rs (PestModel.OptTotal.posCounts_rulesV hr)
+
+/-- **`parse_and_optimize` never panics** (`Model/Pipeline`: `parser::parse`, `validate_pairs` with the regenerated
+`PEST_KEYWORDS` / `BUILTINS`, `consume_rules`, `validate_ast`, `optimize`): for every text and both feature settings the
+pipeline returns rules or a non-empty list of errors — `validate_pairs`' `unwrap`, the reader's panic sites, the unroller's
+`unwrap` and `rule_to_optimized_rule`'s `unreachable!` are all unreachable. Uses the generic `Ref.meaning_sliced` (every pair
+of a successful parse of any grammar spans a slice of the input). -/
+theorem pipeline_no_panic (extras : Bool) (text : PestModel.LineCol.Str) :
+    PestModel.Pipeline.parseAndOptimize extras text ≠ some .panic :=
+  PestModel.Pipeline.pipeline_no_panic extras text
 
 /-! non-vacuity: the pairs of `a={b}` (written out) have the shape, so the hypothesis of `consume_rules_no_panic` is met
 by a real forest. -/
